@@ -226,6 +226,30 @@ def D25():
     again = eao.io.optimize(pf(), tg2, d)['summary'].loc['value', 'Values']
     return f"value on grid 2 with fresh data {fresh:.0f}; with the same DataFrame after a call on grid 1 {again:.0f}"
 
+@witness
+def D26():
+    tg = grid(); pr = sine(tg)
+    st = A.Storage('st', nodes=N1, size=10, cap_in=1, cap_out=1, price='p', start=dt.datetime(2022, 1, 1), end=dt.datetime(2022, 2, 1))
+    eao.portfolio.Portfolio([sc('a'), A.ScaledAsset(name='sc', base_asset=st, max_scale=3)]).setup_optim_problem(pr, tg)
+    return 'no error'
+
+@witness
+def D27():
+    tg = grid(); pr = sine(tg)
+    p1 = A.Plant(name='p1', nodes=[N1], price='p', min_cap=1, max_cap=5, start_costs=1.)
+    p2 = A.Plant(name='p2', nodes=[N1], price='p', min_cap=1, max_cap=5, start_costs=1., start=dt.datetime(2021, 1, 1), end=dt.datetime(2021, 1, 1, 6))
+    la = eao.portfolio.LinkedAsset(eao.portfolio.Portfolio([p1, p2]), nodes=[N1], name='L', asset1_variable=(p1, 'disp', N1), asset2_variable=(p2, 'bool_on', None))
+    la.setup_optim_problem(pr, tg)
+    return f"LinkedAsset window = {tg.T} steps, loop bound self.timegrid.restricted.T = {la.timegrid.restricted.T}"
+
+@witness
+def D19b():
+    tg = grid(); pr = sine(tg)
+    p1 = A.Plant(name='p1', nodes=[N1], price='p', min_cap=1, max_cap=5, start_costs=1.)
+    p2 = A.Plant(name='p2', nodes=[N1], price='p', min_cap=1, max_cap=5, start_costs=1.)
+    la = eao.portfolio.LinkedAsset(eao.portfolio.Portfolio([p1, p2]), nodes=[N1], name='L', asset1_variable=(p1, 'disp', N1), asset2_variable=(p2, 'bool_on', None))
+    la.setup_optim_problem(pr, tg, costs_only=True); return 'no error'
+
 if __name__ == '__main__':
     which = sys.argv[1:] or list(W)
     for k in which:
